@@ -11,7 +11,10 @@ deleting the check is reported).  Arithmetic-overflow assertions are excluded
 (release builds disable them).  Sources reachable but outside the reviewed scope
 operate on data already accepted into local storage and are counted, not decided. 
 Guards must compare the very operands passed on; unsigned subtraction is a source
-unless dominated by `a >= b`; `Session::fetching` is guarded by `is_connected()`."""
+unless dominated by `a >= b`; `Session::fetching` is guarded by `is_connected()`.
+sqlite's panicking column accessor `Row::read::<T>` is a panic source: allowed only where
+the column's parser accepts everything this node's writer can have stored (primitive,
+total parser, keyword set agreeing with the writer, or a reviewed inverse encoding)."""
 import re
 
 from .. import dbread, cfg, rules, flow, panic
